@@ -10,7 +10,7 @@ use calamine::verif_hooks::{xls as hx, xlsb as hb};
 use calamine::{HeaderRow, Ods, Reader, Xls, Xlsb, Xlsx};
 use std::collections::BTreeMap;
 use std::io::Cursor;
-use verif_harness::xlsbw::{BVal, DefinedName, Fmla, XlsbBook, XlsbSheet};
+use verif_harness::xlsbw::{BVal, DefinedName, Fmla, Framing, XlsbBook, XlsbSheet};
 use verif_harness::odsw::{OdsBook, OdsCell, OdsSheet, OdsVal, RowRun};
 use verif_harness::xlsw::{Cached, CellV, XlsBook, XlsCell, XlsName, XlsSheet};
 use verif_harness::xlsxw::{ev_wire, Layout, XCell, XVal, XlsxBook, XlsxSheet};
@@ -1376,6 +1376,66 @@ where
     }
 }
 
+/// error class of a reader error: the variant name of its `Debug` text (the Lean models of the record layer name
+/// classes, the decoder model gives the full text)
+fn err_class(e: &str) -> String {
+    let v: String = e.chars().take_while(|c| c.is_ascii_alphanumeric()).collect();
+    match v.as_str() {
+        "io" => "Io".into(),
+        _ => v,
+    }
+}
+
+/// `XlsbFormula.sheetFormulas` (Lean) on the bytes of a worksheet part, as a range dump / `err:<class>`
+fn model_sheet_formulas(part: &[u8], ctx: &Ctx, drv: &mut Driver) -> String {
+    let reply = drv.ask(&format!("bsf {} {}", hex(part), ctx.wire()));
+    if let Some(rest) = reply.strip_prefix("ok") {
+        let mut cells = BTreeMap::new();
+        for w in rest.split_whitespace() {
+            let p: Vec<&str> = w.split(',').collect();
+            // later records at the same position win, as in `from_sparse`
+            cells.insert((p[0].parse().unwrap(), p[1].parse().unwrap()), subst_num(&String::from_utf8(unhex(p[2])).unwrap()));
+        }
+        expected_dump(&cells)
+    } else if let Some(h) = reply.strip_prefix("err:") {
+        format!("err:{}", err_class(&String::from_utf8(unhex(h)).unwrap()))
+    } else {
+        reply
+    }
+}
+
+fn canon_err_dump(s: &str) -> String {
+    match s.strip_prefix("err:") {
+        Some(e) => format!("err:{}", err_class(e)),
+        None => s.to_string(),
+    }
+}
+
+/// a structural fault in a worksheet part: truncation, a flipped byte, a dropped byte
+fn mutate_part(rng: &mut Rng, part: &[u8]) -> Vec<u8> {
+    let mut v = part.to_vec();
+    if v.is_empty() {
+        return v;
+    }
+    match rng.below(4) {
+        0 => v.truncate(rng.below(v.len() as u64 + 1) as usize),
+        1 => {
+            let i = rng.below(v.len() as u64) as usize;
+            v[i] = rng.next() as u8;
+        }
+        2 => {
+            let i = rng.below(v.len() as u64) as usize;
+            v.remove(i);
+        }
+        _ => {
+            // cut inside the tail half, where the cell records are
+            let lo = v.len() / 2;
+            v.truncate(lo + rng.below((v.len() - lo) as u64 + 1) as usize);
+        }
+    }
+    v
+}
+
 fn run_file_case(fc: &FileCase, drv: &mut Driver, rep: &mut Report) {
     let input = fc.wire();
     rep.case(&input, !fc.cells.is_empty());
@@ -1501,6 +1561,11 @@ fn run_file_case(fc: &FileCase, drv: &mut Driver, rep: &mut Report) {
     // ---- xlsb
     {
         let mut book = XlsbBook::new();
+        book.framing = match lrng.below(3) {
+            0 => Framing::Minimal,
+            1 => Framing::Widest,
+            _ => Framing::Random(lrng.next()),
+        };
         book.extern_sheets = fc.ctx.xtis.iter().map(|&i| (i as i32, i as i32)).collect();
         for (k, n) in fc.ctx.names.iter().enumerate() {
             let itab = if n.starts_with("_xlnm") { (k % fc.ctx.sheets.len()) as u32 } else { 0xFFFF_FFFF };
@@ -1515,7 +1580,12 @@ fn run_file_case(fc: &FileCase, drv: &mut Driver, rep: &mut Report) {
                     _ => BVal::str("x"),
                 };
                 let cell = sh.set(c.r, c.c, val);
-                cell.fmla = Some(Fmla { flags: 0, rgce: c.xlsb.clone(), rgcb: vec![] });
+                let k = lrng.below(9) as usize;
+                let rgcb = if lrng.chance(1, 4) { lrng.bytes(k) } else { vec![] };
+                cell.fmla = Some(Fmla { flags: lrng.below(4) as u16 * 2, rgce: c.xlsb.clone(), rgcb });
+            }
+            if lrng.chance(1, 3) {
+                sh.noise = Some(lrng.next());
             }
             if let Some(c) = cs.iter().find(|c| c.sh == i) {
                 sh.set(c.r, c.c + 40, BVal::real(7.0));
@@ -1532,7 +1602,13 @@ fn run_file_case(fc: &FileCase, drv: &mut Driver, rep: &mut Report) {
                     let hist = pick_history(&mut lrng, &rows);
                     rep.count(if hist >= 2 { "history.header_row_before_formula" } else { "history.plain" });
                     let imp = guarded(|| impl_dump(&mut wb, name, hist)).unwrap_or_else(|p| format!("panic:{p}"));
-                    let m = expected_dump(&model);
+                    // the Lean model of next_formula / formula_rgce / worksheet_formula on the very bytes of the part
+                    let m_cells = model_sheet_formulas(&book.sheet_part(i), &fc.ctx, drv);
+                    rep.count("file_xlsb_sheet_part_model");
+                    if m_cells != expected_dump(&model) {
+                        rep.fail("model_vs_spec", "file_xlsb_sheet_model_vs_token_model", &input, &imp, &m_cells, &expected_dump(&model));
+                    }
+                    let m = m_cells;
                     let e = if fc.ctx.has_dangling() { m.clone() } else { expected_dump(&exp) };
                     if imp != e {
                         rep.fail("impl_vs_spec", "file_xlsb_worksheet_formula", &input, &imp, &m, &e);
@@ -1542,6 +1618,29 @@ fn run_file_case(fc: &FileCase, drv: &mut Driver, rep: &mut Report) {
                     }
                 }
                 rep.count("file_xlsb_opened");
+                // structural faults in the worksheet part: impl (through the public API) vs the Lean model, result or
+                // error class; a panic is a violation
+                if !fc.ctx.sheets.is_empty() && lrng.chance(1, 2) {
+                    let i = lrng.below(fc.ctx.sheets.len() as u64) as usize;
+                    let bad_part = mutate_part(&mut lrng, &book.sheet_part(i));
+                    let mut b2 = book.clone();
+                    b2.sheets[i].raw = Some(bad_part.clone());
+                    let inp2 = format!("{input} @badpart {i} {}", hex(&bad_part));
+                    rep.count("file_xlsb_malformed_part");
+                    let m = model_sheet_formulas(&bad_part, &fc.ctx, drv);
+                    let imp = match guarded(|| Xlsb::new(Cursor::new(b2.to_bytes()))) {
+                        Ok(Ok(mut wb2)) => canon_err_dump(&guarded(|| impl_dump0(&mut wb2, &fc.ctx.sheets[i])).unwrap_or_else(|p| format!("panic:{p}"))),
+                        Ok(Err(e)) => format!("open-err:{e:?}"),
+                        Err(p) => format!("panic:{p}"),
+                    };
+                    if imp.starts_with("panic") {
+                        rep.fail("impl_vs_spec", "file_xlsb_malformed_part_panic", &inp2, &imp, &m, "Ok or Err");
+                    }
+                    // hostile coordinates make from_sparse itself fail (C05/C06 finding): the model stops before it
+                    if imp != m && !imp.starts_with("panic") {
+                        rep.fail("impl_vs_model", "file_xlsb_malformed_part", &inp2, &imp, &m, "");
+                    }
+                }
             }
             Ok(Err(e)) => rep.fail("impl_vs_spec", "file_xlsb_open", &input, &format!("err:{e:?}"), "", "opens"),
             Err(p) => rep.fail("impl_vs_spec", "file_xlsb_open", &input, &format!("panic:{p}"), "", "opens"),
